@@ -6,7 +6,10 @@ replace github.com/arr-ai/arrai => /repo
 
 replace github.com/spf13/afero => github.com/anz-bank/afero v1.2.4
 
-require github.com/arr-ai/arrai v0.0.0
+require (
+	github.com/arr-ai/arrai v0.0.0
+	github.com/spf13/afero v1.11.0
+)
 
 require (
 	github.com/arr-ai/frozen v1.11.0 // indirect
@@ -24,7 +27,6 @@ require (
 	github.com/richardlehane/msoleps v1.0.3 // indirect
 	github.com/russross/blackfriday/v2 v2.1.0 // indirect
 	github.com/sirupsen/logrus v1.9.4 // indirect
-	github.com/spf13/afero v1.11.0 // indirect
 	github.com/stretchr/testify v1.10.0 // indirect
 	github.com/urfave/cli/v2 v2.2.0 // indirect
 	github.com/xuri/efp v0.0.0-20240408161823-9ad904a10d6d // indirect
